@@ -1,7 +1,168 @@
-(* C07 - placeholder while the model is being validated *)
+(* C07 - ListBox always shows a gap-free window of its items containing the focus.
+   Only statements here; every proof is [exact <lemma>] into Proofs/ListBox*Proofs.v.
+   The model (Model/ListBoxView.v) is a hand transcription of urwid/widget/listbox.py tied to the
+   code by an exact extracted-model correspondence on every run (harness/props/c07.py).
+
+   How the history quantifier of the property is discharged:
+     (1) offset_rows / inset_fraction are written only by shift_focus and change_focus (checked
+         syntactically on the source on every run), and whatever those two write satisfies
+         ViewOK: offset_rows >= 0, 0 <= inum < iden              [writers_establish_view_ok]
+     (2) so every state reached by ANY history is ViewOK           [history_keeps_view_ok]
+     (3) and EVERY ViewOK state - reachable or not - renders a gap-free window   [view_ok].   *)
 From Coq Require Import ZArith List Bool.
-From Urwid Require Import PyBase ListBoxView.
+Import ListNotations.
+From Urwid Require Import PyBase ListBoxView ListBoxViewProofs ListBoxWindowProofs ListBoxHistoryProofs ListBoxMouseProofs.
 Open Scope Z_scope.
-Example render_somewhere : True.
-Proof. exact I. Qed.
-Print Assumptions render_somewhere.
+
+(* --- (3) view_ok.  For every list of flow widgets with heights >= 0 (zero-height ones included),
+   every focus position, every offset_rows >= 0, every inset fraction 0 <= inum < iden, every
+   maxrow >= 1, focus flag, and cursor row inside the focus widget, render does not raise and
+     - the rows shown are [window its p maxrow]: the slice [p, p+maxrow) of the stacked item rows
+       followed by blank rows only (so no blank row lies above an item row);
+     - blank rows appear only if everything above is shown (p = 0) - and the slice then runs to the
+       end of the list by construction of [window];
+     - a focus item with >= 1 row has a row in the slice;
+     - the cursor row of the focus item is in the slice, exactly at the canvas cursor.
+   Hypotheses forced by the proof and stated explicitly: heights >= 0, maxrow >= 1, the cursor row
+   reported by the focus widget lies inside it, and no focus change is pending (see below). *)
+Theorem view_ok :
+  forall its f o n d maxrow fflag w,
+    StateOK its o n d maxrow -> nthz its f = Some w -> cursor_ok w ->
+    exists p,
+      0 <= p <= zlen (all_rows its) /\
+      render_view its f o n d maxrow fflag
+        = Ok (window its p maxrow, cur_out its f p (cursor_of w maxrow fflag)) /\
+      (zlen (all_rows its) - p < maxrow -> p = 0) /\
+      (1 <= i_rows w -> exists r, 0 <= r < i_rows w /\ In (f, r) (takez maxrow (dropz p (all_rows its)))) /\
+      (forall cy, cursor_of w maxrow fflag = Some cy ->
+         0 <= rows_before its f + cy - p < maxrow /\
+         nthz (window its p maxrow) (rows_before its f + cy - p) = Some (f, cy)).
+Proof. exact view_ok_lemma. Qed.
+Print Assumptions view_ok.
+
+(* what [window] and [all_rows] are *)
+Theorem window_is_slice_then_blanks :
+  forall its p maxrow, 0 <= p -> 0 <= maxrow ->
+    window its p maxrow
+      = takez maxrow (dropz p (all_rows its))
+        ++ repeat blank (Z.to_nat (maxrow - zlen (takez maxrow (dropz p (all_rows its)))))
+    /\ zlen (window its p maxrow) = maxrow
+    /\ (forall x, In x (all_rows its) -> 0 <= fst x (* hence x <> blank = (-1, -1) *)).
+Proof.
+  intros its p maxrow Hp Hm. split; [reflexivity|]. split; [now apply zlen_window|]. intros x. apply all_rows_pos.
+Qed.
+Print Assumptions window_is_slice_then_blanks.
+
+Theorem focus_rows_are_where_expected :
+  forall its f w r, heights_ok its -> nthz its f = Some w -> 0 <= r < i_rows w ->
+    nthz (all_rows its) (rows_before its f + r) = Some (f, r).
+Proof. exact nth_all_rows. Qed.
+Print Assumptions focus_rows_are_where_expected.
+
+(* --- (1) the two writers --- *)
+Theorem writers_establish_view_ok :
+  (forall s maxrow oi s', shift_focus s maxrow oi = Ok s' ->
+     ViewOK s' /\ items s' = items s /\ focus s' = focus s /\ pend s' = pend s /\ off s' < Z.max 1 maxrow) /\
+  (forall s maxrow position oi cf s', change_focus s maxrow position oi cf = Ok s' ->
+     ViewOK s' /\ items s' = items s /\ focus s' = position /\ pend s' = pend s /\
+     exists w, nthz (items s) position = Some w).
+Proof. split; [exact shift_focus_writes | exact change_focus_writes]. Qed.
+Print Assumptions writers_establish_view_ok.
+
+(* --- (2) any history of modelled operations (render, up/down/item keys, mouse press and wheel,
+   set_focus, direct shift_focus / change_focus / make_cursor_visible calls, walker edits [OItems])
+   interleaved with operations that are NOT modelled (page up/down, home/end, set_focus_valign:
+   [OSync], whose resulting view state is ViewOK by (1) + the syntactic scan) keeps ViewOK --- *)
+Theorem history_keeps_view_ok :
+  forall ops s, ViewOK s -> Forall op_ok ops ->
+    forall s' out, In (Ok (s', out)) (run s ops) -> ViewOK s'.
+Proof. exact history_view_ok. Qed.
+Print Assumptions history_keeps_view_ok.
+
+(* --- (2)+(3): after ANY history, a render with no focus request pending shows a gap-free window
+   with all the clauses of view_ok.  The widgets present at the time of the render are the
+   environment: heights >= 0 and the cursor inside the focus widget are hypotheses on them. --- *)
+Theorem render_after_any_history :
+  forall ops s s' out maxrow fflag w,
+    ViewOK s -> Forall op_ok ops -> In (Ok (s', out)) (run s ops) ->
+    pend s' = PNone -> heights_ok (items s') -> 1 <= maxrow ->
+    nthz (items s') (focus s') = Some w -> cursor_ok w ->
+    exists p,
+      0 <= p <= zlen (all_rows (items s')) /\
+      render s' maxrow fflag
+        = Ok (s', (window (items s') p maxrow, cur_out (items s') (focus s') p (cursor_of w maxrow fflag))) /\
+      (zlen (all_rows (items s')) - p < maxrow -> p = 0) /\
+      (1 <= i_rows w -> exists r, 0 <= r < i_rows w /\
+                                  In (focus s', r) (takez maxrow (dropz p (all_rows (items s'))))) /\
+      (forall cy, cursor_of w maxrow fflag = Some cy ->
+         nthz (window (items s') p maxrow) (rows_before (items s') (focus s') + cy - p) = Some (focus s', cy)).
+Proof. exact render_after_history_lemma. Qed.
+Print Assumptions render_after_any_history.
+
+(* an empty list box renders blank *)
+Theorem empty_list_renders_blank :
+  forall its f o n d maxrow fflag, nthz its f = None ->
+    render_view its f o n d maxrow fflag = Ok (repeat blank (Z.to_nat maxrow), None).
+Proof. exact render_view_empty. Qed.
+Print Assumptions empty_list_renders_blank.
+
+(* --- the mouse clause: a button-1 press on a row that shows a selectable item makes it the focus --- *)
+Theorem mouse_press_focuses :
+  forall s maxrow row pos r win cur,
+    ViewOK s -> pend s = PNone -> heights_ok (items s) -> 1 <= maxrow ->
+    (forall w, nthz (items s) (focus s) = Some w -> cursor_ok w) ->
+    render s maxrow true = Ok (s, (win, cur)) ->
+    nthz win row = Some (pos, r) -> 0 <= pos -> sel_at (items s) pos = true ->
+    exists s' b, mouse_press s maxrow 1 row = Ok (s', b) /\ focus s' = pos /\ ViewOK s'.
+Proof. exact mouse_press_focuses_lemma. Qed.
+Print Assumptions mouse_press_focuses.
+
+(* --- the full statement for renders that have to complete a pending focus request first
+   ("first selectable" of a fresh list box, set_focus) is NOT proved: [render_any_history_full].
+   With a pending set_focus whose old position no longer exists the statement is FALSE of the
+   model and of the implementation: [render_with_stale_pending_refuted] (replayed on the
+   implementation by corpus/C07/stale_pending.json: render raises IndexError).
+   What is proved instead: render_after_any_history (no request pending) and, for pending
+   requests, only that a successful completion leaves a ViewOK state (history_keeps_view_ok);
+   "completion does not raise" is checked by the correspondence and the oracle only. --- *)
+Definition render_any_history_full : Prop :=
+  forall ops s s' out maxrow fflag,
+    ViewOK s -> Forall op_ok ops -> In (Ok (s', out)) (run s ops) ->
+    heights_ok (items s') -> 1 <= maxrow ->
+    (forall w, In w (items s') -> cursor_ok w) ->
+    exists s'' win cur, render s' maxrow fflag = Ok (s'', (win, cur)).
+
+Theorem render_with_stale_pending_refuted : ~ render_any_history_full.
+Proof. exact stale_pending_refutes. Qed.
+Print Assumptions render_with_stale_pending_refuted.
+
+(* --- non-vacuity: the hypotheses are met by ordinary states and the model computes --- *)
+Definition ex_items : list item :=
+  [ {| i_rows := 2; i_sel := false; i_cy := None |};
+    {| i_rows := 0; i_sel := true; i_cy := None |};
+    {| i_rows := 3; i_sel := true; i_cy := Some 2 |};
+    {| i_rows := 4; i_sel := false; i_cy := None |} ].
+
+Example state_ok_somewhere : StateOK ex_items 1 0 1 3 /\ StateOK ex_items 0 2 3 3.
+Proof. split; split; try (cbv; intuition discriminate); repeat constructor; cbv; discriminate. Qed.
+
+Example render_somewhere :
+  render_view ex_items 2 1 0 1 3 false = Ok ([(0, 1); (2, 0); (2, 1)], None)
+  /\ render_view ex_items 2 1 0 1 3 true = Ok ([(2, 0); (2, 1); (2, 2)], Some 2)
+  /\ render_view ex_items 1 2 0 1 4 true = Ok ([(0, 0); (0, 1); (2, 0); (2, 1)], None)
+  /\ render_view ex_items 2 0 2 3 3 true = Ok ([(2, 2); (3, 0); (3, 1)], Some 0)
+  /\ render_view ex_items 3 0 0 1 12 false
+     = Ok ([(0, 0); (0, 1); (2, 0); (2, 1); (2, 2); (3, 0); (3, 1); (3, 2); (3, 3); (-1, -1); (-1, -1); (-1, -1)], None).
+Proof. vm_compute. repeat split; reflexivity. Qed.
+
+Example history_somewhere :
+  let s0 := {| items := ex_items; focus := 0; off := 0; inum := 0; iden := 1; pend := PFirst |} in
+  map (fun r => match r with
+                | Ok (s, OutView rows _) => (focus s, off s, rows)
+                | Ok (s, _) => (focus s, off s, [])
+                | Err _ => (-9, -9, [])
+                end)
+      (run s0 [ORender 3 true; OKey 3 KDown; ORender 3 true; OMouse 3 1 0; ORender 3 true; OKey 3 KUp; ORender 3 false])
+  = [ (0, 0, [(0, 0); (0, 1); (2, 0)]); (2, 0, []); (2, 0, [(2, 0); (2, 1); (2, 2)]);
+      (2, 0, []); (2, 0, [(2, 0); (2, 1); (2, 2)]); (0, 0, []); (0, 0, [(0, 1); (2, 0); (2, 1)]) ].
+Proof. vm_compute. reflexivity. Qed.
